@@ -1697,6 +1697,11 @@ impl FixtureDatabase {
             }
         }
 
+        // `fixture_names` is a HashSet: report mismatches in source order, not hash order.
+        mismatches.sort_by(|a, b| {
+            (a.fixture.line, &a.dependency.name).cmp(&(b.fixture.line, &b.dependency.name))
+        });
+
         mismatches
     }
 
